@@ -179,6 +179,9 @@ type ReplayFile struct {
 	// O7 (cross-process canary): two worker batches whose canary digests must agree and do not
 	CanaryBatches []CanaryBatch `json:"canary_batches,omitempty"`
 	CanaryKeys    []string      `json:"canary_keys,omitempty"`
+	// Procs: GOMAXPROCS of the worker process that showed the violation (a quarter of the batches run with 2: code
+	// may ask runtime.GOMAXPROCS; the simulated schedule does not depend on it)
+	Procs int `json:"procs,omitempty"`
 	// O8 (history-free twin run): run AloneRun of batch AloneBatch executed after the runs before it, and executed
 	// alone in a fresh worker process, must give the same results
 	AloneBatch *CanaryBatch `json:"alone_batch,omitempty"`
@@ -205,4 +208,5 @@ type CanaryBatch struct {
 	Tier    string `json:"tier"`
 	NoCold  bool   `json:"nocold,omitempty"`
 	ForceOp bool   `json:"forceop,omitempty"`
+	Procs   int    `json:"procs,omitempty"`
 }
